@@ -96,7 +96,8 @@ class Gen:
             return None
         if k < 0.8:
             return base64.b64encode(self.r.choice(METAS))
-        return self.r.choice([b"!!!notbase64", base64.b64encode(b"\xff\xfe"), base64.b64encode(b"{bad json"),
+        # (bytes that are not UTF-8 on their own, and inside a string of otherwise valid JSON: both refused, not repaired)
+        return self.r.choice([b"!!!notbase64", base64.b64encode(b"\xff\xfe"), base64.b64encode(b'{"k":"a\xffb"}'), base64.b64encode(b"{bad json"),
                               b"caf\xc3\xa9", b"e30", base64.b64encode(b'{"a":1}')[:-1], b"\xe9"])
 
     def op_register(self):
